@@ -26,6 +26,9 @@ def bounds(tier):
     return {"k": 2 if tier == "quick" else 3, "maxbuf": 1 << (22 if tier == "quick" else 24)}
 
 
+REENTRANT_CLASSES = ["TestUnitReady", "Read10", "Read12", "Read16", "Inquiry", "ModeSense6", "ExtendedCopy4"]
+
+
 def partitions(tier):
     parts = []
     for name, c in S.CLASSES.items():
@@ -36,6 +39,7 @@ def partitions(tier):
         if any(f in S.ALLOCATING for f in c["args"].values()):
             st, key = c["tables"][0]
             parts.append([name, st, key, "wide"])
+    parts += [["reentrant", a, 0] for a in REENTRANT_CLASSES]
     return parts
 
 
@@ -242,6 +246,9 @@ def negative_lba(name, st, key, lba):
 
 
 def replay(case):
+    if case[0] == "reentrant":
+        from vf.props import c09
+        return c09.run_reentrant(case[1], case[2])[0]
     if case[0] == "neg":
         return negative_lba(*case[1:])
     return run_case(case) + (conventions(*case[:4]) if len(case) == 4 else [])
@@ -249,6 +256,19 @@ def replay(case):
 
 def run_partition(part, tier, seed):
     acc = Acc(seed)
+    if part[0] == "reentrant":
+        # the CDB a constructor builds is the same when another command is built in the SAME thread between two library lines of the
+        # construction (a signal handler / finalizer issuing a command), at every line in turn (enumeration shared with C09)
+        from vf.props import c09
+        for b2 in REENTRANT_CLASSES:
+            case = ["reentrant", part[1], b2]
+            acc.case(case, nontrivial=True, key=tuple(case))
+            v, npoints = c09.run_reentrant(part[1], b2, acc)
+            acc.add("reentrancy_points", npoints)
+            for k, what in v:
+                acc.violation(k, what, case)
+            acc.outcome((tuple(case), npoints, tuple(k for k, _ in v)))
+        return acc
     wide = len(part) > 3
     name, st, key = part[:3]
     b = bounds(tier)
